@@ -32,22 +32,28 @@
 //      acknack.addressee  reader_id / writer_id / INFO_DST of the reply name this reader and the writer whose
 //                         locator the reply was sent to
 //
-// Bound (one writer): alphabet FULL (153 operations) =
+// Bound (one writer): alphabet FULL (159 operations) =
 //     DATA(sn) sn in 1..=5;  UNUSABLE-DATA(sn, variant) sn in 1..=5 = a DATA that cannot be turned into a change
 //     (variant 0: no payload, no flags, no inline QoS; variant 1: payload with D and K flag both set): the model
 //     covers sn (its DATA has arrived, there is nothing to hand over), later samples must flow;
+//     DATA(sn) with an inline QoS whose PID_RELATED_SAMPLE_IDENTITY cannot be parsed, sn in 1..=5: handed over like DATA(sn);
+//     PREEMPT = the timer action Reader::send_preemptive_acknacks(): whatever it emits is held to the same ACKNACK oracle;
 //     GAP(start a, base b, bits subset of {b,b+1}) 1<=a<=b<=6;
 //     HEARTBEAT(first f, last l, final?) 0<=f<=l+1<=6, l>=0; the HEARTBEAT count is the position in the sequence.
-//   alphabet SMALL (29 operations) = DATA(1..=3); UNUSABLE-DATA(1..=3, variant 0); GAP with b<=3 and bits subset of {b};
+//   alphabet SMALL (29 operations) = DATA(1..=3); UNUSABLE-DATA(2..=3, variant 0); PREEMPT; GAP with b<=3 and bits subset of {b};
 //     HEARTBEAT(f,3,final?) f in 1..=4 and HEARTBEAT(f,2,false) f in 1..=3.
 //   Exhaustive: every sequence of length <= 2 over FULL (take() after every step, and take() only at the end); every
 //   sequence of length 3 over FULL x FULL x FULL whose first operation is in SMALL; every sequence of length 4 over SMALL.
-//   Two writers: every pair of length-2 sequences over an 11-operation alphabet, interleaved A1 B1 A2 B2, each with
+//   Two writers: every pair of length-2 sequences over an 11-operation alphabet (+ PREEMPT in writer A's positions), interleaved A1 B1 A2 B2, each with
 //   four take() schedules (after every step / only at the end / after steps 1,3,4 / after steps 2,4), so that samples of
 //   both writers received out of order sit in the DataReader together.
 //   Duplicate heartbeats: op, HEARTBEAT(count 2), op, HEARTBEAT(count 1 or 2) over SMALL (ops without HEARTBEAT).
 //   Fragments: 2 SNs x 3 fragments; every sequence of length <= 4 over {DATAFRAG(sn,f), HEARTBEAT(1,2,final?)}
 //   and every sequence DATAFRAG x DATAFRAG x {GAP, DATA} x HEARTBEAT.
+//   C09 (xc_reader_c09_*): every sequence of length <= 4 over 13 operations around unusable / malformed-inline-QoS DATA.
+//   MessageReceiver (xc_reader_msgrx_*): every RTPS message of <= 5 submessages over {INFO_TS(t1), INFO_TS(t2),
+//   INFO_TS(invalidate), INFO_SRC(A), INFO_SRC(B), DATA} through MessageReceiver::handle_received_packet: each sample handed
+//   over has the writer (current source) and the source timestamp (current, invalidated by INFO_SRC) its DATA carried.
 #[cfg(test)]
 mod verif_xc_reader_path {
   use std::{
@@ -69,10 +75,11 @@ mod verif_xc_reader_path {
       topic::{Topic, TopicDescription, TopicKind},
       with_key::datareader::DataReader,
     },
+    messages::submessages::elements::parameter::Parameter,
     mio_source::PollEventSource,
     rtps::SubmessageBody,
     serialization::{to_vec, CDRDeserializerAdapter},
-    structure::guid::EntityKind,
+    structure::{guid::EntityKind, parameter_id::ParameterId},
     test::random_data::RandomData,
     QosPolicyBuilder, RepresentationIdentifier,
   };
@@ -85,6 +92,8 @@ mod verif_xc_reader_path {
     Gap(i64, i64, u8),  // GAP(gap_start, gap_list.base, bitmap: bit0 = base, bit1 = base+1)
     Hb(i64, i64, bool), // HEARTBEAT(first_sn, last_sn, final flag)
     Frag(i64, u32),     // DATAFRAG(writer_sn, fragment number) of a 3-fragment sample
+    BadQos(i64),        // DATA(writer_sn) with a value and an inline QoS whose PID_RELATED_SAMPLE_IDENTITY is 4 garbage bytes
+    Preempt,            // the reader's periodic timer action Reader::send_preemptive_acknacks()
     Unusable(i64, u8),  // DATA(writer_sn) that cannot be turned into a change: 0 = no payload, no flags, no inline QoS;
                         // 1 = payload with both the D and the K flag set
   }
@@ -99,6 +108,8 @@ mod verif_xc_reader_path {
     fn fmt(&self, f: &mut std::fmt::Formatter<'_>) -> std::fmt::Result {
       match self.op {
         Op::Data(s) => write!(f, "w{}:DATA({})", self.w, s),
+        Op::BadQos(s) => write!(f, "w{}:DATA({},inline QoS with malformed related_sample_identity)", self.w, s),
+        Op::Preempt => write!(f, "PREEMPTIVE-ACKNACK-TIMER"),
         Op::Frag(s, k) => write!(f, "w{}:DATAFRAG(sn={},frag={}/3)", self.w, s, k),
         Op::Unusable(s, v) => write!(f, "w{}:UNUSABLE-DATA({},{})", self.w, s, ["no payload/flags/inline QoS", "D and K flag both set"][v as usize]),
         Op::Gap(a, b, bits) => {
@@ -114,6 +125,8 @@ mod verif_xc_reader_path {
     let mut v = vec![];
     for s in 1..=5 { v.push(Op::Data(s)); }
     for s in 1..=5 { for var in 0..2u8 { v.push(Op::Unusable(s, var)); } }
+    for s in 1..=5 { v.push(Op::BadQos(s)); }
+    v.push(Op::Preempt);
     for a in 1..=6 { for b in a..=6 { for bits in 0..4u8 { v.push(Op::Gap(a, b, bits)); } } }
     for l in 0..=5 { for f in 0..=l + 1 { for fin in [false, true] { v.push(Op::Hb(f, l, fin)); } } }
     v
@@ -122,7 +135,8 @@ mod verif_xc_reader_path {
   fn small_alphabet() -> Vec<Op> {
     let mut v = vec![];
     for s in 1..=3 { v.push(Op::Data(s)); }
-    for s in 1..=3 { v.push(Op::Unusable(s, 0)); }
+    for s in 2..=3 { v.push(Op::Unusable(s, 0)); }
+    v.push(Op::Preempt);
     for a in 1..=3 { for b in a..=3 { for bits in 0..2u8 { v.push(Op::Gap(a, b, bits)); } } }
     for f in 1..=4 { for fin in [false, true] { v.push(Op::Hb(f, 3, fin)); } }
     for f in 1..=3 { v.push(Op::Hb(f, 2, false)); }
@@ -169,7 +183,9 @@ mod verif_xc_reader_path {
     // returns whether the operation is a HEARTBEAT that has to be treated as new (not a duplicate)
     fn apply(&mut self, st: &Step, step: usize) -> bool {
       match st.op {
-        Op::Data(s) => { self.sample_arrived(s, step, step); false }
+        // a parameter of the inline QoS that cannot be parsed does not make the value unusable
+        Op::Data(s) | Op::BadQos(s) => { self.sample_arrived(s, step, step); false }
+        Op::Preempt => false,
         // the DATA for s has arrived, but it carries nothing that could be handed over: s is not missing any more
         Op::Unusable(s, _) => { self.cover(s); false }
         Op::Frag(s, f) => {
@@ -427,6 +443,19 @@ mod verif_xc_reader_path {
         reader.handle_data_msg(data, DATA_Flags::Endianness | DATA_Flags::Data, &mr_state);
         false
       }
+      Op::BadQos(s) => {
+        let mut inline_qos = ParameterList::new();
+        // a related_sample_identity is 24 bytes (GUID + sequence number); this one has 4
+        inline_qos.push(Parameter::new(ParameterId::PID_RELATED_SAMPLE_IDENTITY, vec![0xde, 0xad, 0xbe, 0xef]));
+        let data = Data {
+          reader_id, writer_id, writer_sn: sn(s),
+          inline_qos: Some(inline_qos),
+          serialized_payload: Some(payload_bytes(w.tag, s, step)),
+        };
+        reader.handle_data_msg(data, DATA_Flags::Endianness | DATA_Flags::InlineQos | DATA_Flags::Data, &mr_state);
+        false
+      }
+      Op::Preempt => { reader.send_preemptive_acknacks(); false }
       Op::Unusable(s, var) => {
         let data = Data {
           reader_id, writer_id, writer_sn: sn(s),
@@ -655,7 +684,7 @@ mod verif_xc_reader_path {
 
   fn len2_full(rig: &mut Rig) {
     let full = full_alphabet();
-    assert!(full.len() == 153);
+    assert!(full.len() == 159);
     let (mut n, a0, h0) = (0u64, rig.n_acknacks, rig.n_handed);
     for &a in &full {
       run(rig, &w0(&[a]));
@@ -729,11 +758,12 @@ mod verif_xc_reader_path {
     // --- two writers interleaved, with different moments at which the application calls take()
     let tiny = [
       Op::Data(1), Op::Data(2), Op::Data(3), Op::Unusable(1, 0), Op::Gap(1, 1, 1), Op::Gap(1, 2, 0), Op::Gap(2, 3, 0),
-      Op::Hb(1, 3, false), Op::Hb(2, 3, true), Op::Hb(1, 2, false), Op::Hb(3, 3, true),
+      Op::Hb(1, 3, false), Op::Hb(2, 3, true), Op::Hb(1, 2, false), Op::Hb(3, 3, true), Op::Preempt,
     ];
     let mut rig = Rig::new("two", 2);
     let mut n = 0u64;
     for &a1 in &tiny { for &a2 in &tiny { for &b1 in &tiny { for &b2 in &tiny {
+      if b1 == Op::Preempt || b2 == Op::Preempt { continue; } // the timer belongs to the reader, not to a writer
       let seq = [
         Step { w: 0, op: a1, count: 1 }, Step { w: 1, op: b1, count: 1 },
         Step { w: 0, op: a2, count: 2 }, Step { w: 1, op: b2, count: 2 },
@@ -743,7 +773,7 @@ mod verif_xc_reader_path {
         n += 1;
       }
     } } } }
-    assert!(n == 4 * 14_641 && rig.n_acknacks > 10_000 && rig.n_handed > 10_000,
+    assert!(n == 4 * 144 * 121 && rig.n_acknacks > 10_000 && rig.n_handed > 10_000,
       "vacuity guard: {} two-writer sequences, {} ACKNACKs, {} samples", n, rig.n_acknacks, rig.n_handed);
 
     // --- duplicate / stale heartbeats
@@ -786,5 +816,114 @@ mod verif_xc_reader_path {
     } } } }
     assert!(n > 4_000 && rig.n_nackfrags > 1_000 && rig.n_handed > 100,
       "vacuity guard: {} fragment sequences, {} NACKFRAGs, {} samples", n, rig.n_nackfrags, rig.n_handed);
+  }
+
+  // C09 at reader level: a DATA that cannot be turned into a change, or whose inline QoS has a parameter that
+  // cannot be parsed, never prevents later samples of the writer from being handed over (handover.complete)
+  // and is not requested again (acknack.listed). Every sequence of length <= 4 over 13 operations.
+  #[test]
+  fn xc_reader_c09_unintelligible_data() {
+    loopback_works();
+    let mut ops = vec![];
+    for s in 1..=3 { ops.push(Op::Data(s)); ops.push(Op::Unusable(s, 0)); ops.push(Op::BadQos(s)); }
+    ops.extend([Op::Unusable(2, 1), Op::Gap(1, 2, 0), Op::Hb(1, 3, false), Op::Hb(1, 3, true)]);
+    let mut rig = Rig::new("c09", 1);
+    let mut n = 0u64;
+    let mut seqs: Vec<Vec<Op>> = vec![vec![]];
+    for _len in 1..=4 {
+      seqs = seqs.iter().flat_map(|q| ops.iter().map(move |x| { let mut v = q.clone(); v.push(*x); v })).collect();
+      for q in &seqs {
+        run(&mut rig, &w0(q));
+        n += 1;
+      }
+    }
+    assert!(n > 30_000 && rig.n_acknacks > 5_000 && rig.n_handed > 10_000,
+      "vacuity guard: {} sequences, {} ACKNACKs observed, {} samples handed over", n, rig.n_acknacks, rig.n_handed);
+  }
+
+  // C01 identity through the real MessageReceiver: whole RTPS messages (header of participant A, then every
+  // sequence of <= 5 submessages over {INFO_TS(t1), INFO_TS(t2), INFO_TS(invalidate), INFO_SRC(A), INFO_SRC(B), DATA})
+  // go through MessageReceiver::handle_received_packet into the Reader; writers (A,e) and (B,e) are matched.
+  // Model = RTPS 8.3.4 / 8.3.7.9: the source is the header's, INFO_SRC replaces it and invalidates the timestamp,
+  // INFO_TS sets / invalidates the timestamp; a DATA is a sample of (current source, e) with the current timestamp.
+  #[test]
+  fn xc_reader_msgrx_source_and_timestamp() {
+    use crate::{
+      messages::submessages::{info_source::InfoSource, submessage_kind::SubmessageKind},
+      rtps::{message_receiver::MessageReceiver, MessageBuilder, Submessage},
+    };
+    #[derive(Clone, Copy, Debug, PartialEq)]
+    enum Sm { Ts(u8), TsInvalidate, Src(usize), Data }
+    let alphabet = [Sm::Ts(1), Sm::Ts(2), Sm::TsInvalidate, Sm::Src(0), Sm::Src(1), Sm::Data];
+    let le = Endianness::LittleEndian;
+    let mut rig = Rig::new("msgrx", 1);
+    let (acknack_sender, _ar) = mio_channel::sync_channel(10);
+    let (spdp_liveness_sender, _sr) = mio_channel::sync_channel(8);
+    let mut mr = MessageReceiver::new(rig.reader_guid.prefix, acknack_sender, spdp_liveness_sender, None);
+    let eid = EntityId::create_custom_entity_id([2, 2, 2], EntityKind::WRITER_WITH_KEY_USER_DEFINED);
+    let (mut n, mut n_samples) = (0u64, 0u64);
+    let mut msgs: Vec<Vec<Sm>> = vec![vec![]];
+    for _len in 1..=5 {
+      msgs = msgs.iter().flat_map(|m| alphabet.iter().map(move |x| { let mut v = m.clone(); v.push(*x); v })).collect();
+      for m in &msgs {
+        let (mut reader, keep, writers) = rig.fresh();
+        let tag = WRITER_SERIAL.fetch_add(1, Ordering::Relaxed);
+        let prefixes: Vec<GuidPrefix> = (0..2u8).map(|i| { let mut p = [0xABu8; 12]; p[..8].copy_from_slice(&tag.to_be_bytes()); p[8] = i; GuidPrefix::new(&p) }).collect();
+        for p in &prefixes { reader.matched_writer_add(GUID::new(*p, eid), EntityId::UNKNOWN, vec![], vec![], &rig.qos); }
+        mr.add_reader(reader);
+        // build the message and the model's expectation
+        let ts_of = |k: u8| Timestamp::from_ticks((2_000_000u64 + k as u64) << 32);
+        let (mut src, mut ts, mut next_sn) = (0usize, None, [1i64, 1]);
+        let mut expected: Vec<(GUID, i64, Option<Timestamp>, RandomData)> = vec![];
+        let mut message = Message::new(Header::new(prefixes[0]));
+        for (i, x) in m.iter().enumerate() {
+          match *x {
+            Sm::Ts(k) => { ts = Some(ts_of(k)); for sm in MessageBuilder::new().ts_msg(le, ts).add_header_and_build(prefixes[0]).submessages { message.add_submessage(sm); } }
+            Sm::TsInvalidate => { ts = None; for sm in MessageBuilder::new().ts_msg(le, None).add_header_and_build(prefixes[0]).submessages { message.add_submessage(sm); } }
+            Sm::Src(b) => {
+              src = b;
+              ts = None;
+              let flags = BitFlags::<INFOSOURCE_Flags>::from_endianness(le);
+              message.add_submessage(Submessage {
+                header: SubmessageHeader { kind: SubmessageKind::INFO_SRC, flags: flags.bits(), content_length: 20 },
+                body: SubmessageBody::Interpreter(InterpreterSubmessage::InfoSource(
+                  InfoSource { unused: 0, protocol_version: ProtocolVersion::THIS_IMPLEMENTATION, vendor_id: VendorId::THIS_IMPLEMENTATION, guid_prefix: prefixes[b] },
+                  flags,
+                )),
+                original_bytes: None,
+              });
+            }
+            Sm::Data => {
+              let writer = GUID::new(prefixes[src], eid);
+              let value = sample_for(tag + src as u64, next_sn[src], i);
+              let cc = CacheChange::new(writer, sn(next_sn[src]), WriteOptions::default(),
+                DDSData::new(SerializedPayload::new(RepresentationIdentifier::CDR_LE, to_vec::<RandomData, LittleEndian>(&value).unwrap())));
+              for sm in MessageBuilder::new().data_msg(&cc, rig.reader_guid.entity_id, writer, le, None).add_header_and_build(prefixes[0]).submessages { message.add_submessage(sm); }
+              expected.push((writer, next_sn[src], ts, value));
+              next_sn[src] += 1;
+            }
+          }
+        }
+        mr.handle_received_packet(&Bytes::from(message.write_to_vec_with_ctx(le).unwrap()));
+        let mut got: Vec<(GUID, i64, Option<Timestamp>, RandomData)> = rig.datareader.as_mut().unwrap().take(100, ReadCondition::any()).expect("take")
+          .into_iter()
+          .map(|s| { let i = s.sample_info().clone(); (i.writer_guid(), i64::from(i.sample_identity().sequence_number), i.source_timestamp(), s.into_value().value().expect("value")) })
+          .collect();
+        got.sort_by_key(|g| (g.0, g.1));
+        expected.sort_by_key(|g| (g.0, g.1));
+        let show = |v: &Vec<(GUID, i64, Option<Timestamp>, RandomData)>| -> Vec<String> {
+          v.iter().map(|(g, k, t, d)| format!("{}#{} source_timestamp={:?} value={}",
+            if g.prefix == prefixes[0] { "A" } else if g.prefix == prefixes[1] { "B" } else { "?" }, k, t.map(|t| t.to_ticks() >> 32), d.b)).collect()
+        };
+        assert!(got == expected,
+          "XC-WITNESS label=handover.identity message=[header source=A, {:?}]: handed over {:?}, but the DATA submessages carried {:?} (timestamps: Ts(k) = {} + k)",
+          m, show(&got), show(&expected), 2_000_000);
+        n_samples += got.len() as u64;
+        n += 1;
+        let reader = mr.remove_reader(rig.reader_guid).expect("reader");
+        rig.give_back(reader, keep, &writers);
+      }
+    }
+    assert!(n == 6 + 36 + 216 + 1296 + 7776 && n_samples > 5_000, "vacuity guard: {} messages, {} samples", n, n_samples);
   }
 }
